@@ -585,7 +585,8 @@ HARNESS = r'''
 #define CHECK(c, msg) __CPROVER_assert(c, msg)
 int32_t nondet_i32(void);
 @INDECL@
-#include "c08k_checks.h"
+#include "c08k_common.h"
+#include "c08k_chk_@CID@.h"
 #ifndef EXCL
 #define EXCL 0
 #endif
@@ -642,11 +643,15 @@ int main(int argc, char** argv) {
 '''
 
 
-def checks_header(checks, s):
+def checks_header(checks, s, work):
+    """c08k_checks.h: everything (native driver); c08k_common.h + c08k_chk_<cid>.h: what one CBMC harness needs"""
     fn = []
     for c in checks:
-        fn.append("static void chk_%s(void) {\n  %s\n}" % (c.cid, "\n  ".join(c.body)))
+        f = "static void chk_%s(void) {\n  %s\n}" % (c.cid, "\n  ".join(c.body))
+        fn.append(f)
+        open(os.path.join(work, "c08k_chk_%s.h" % c.cid), "w").write(f + "\n")
     decls = "\n".join("void k_eqc_%s(uint32_t, uint32_t, uint32_t*);" % r for r in sorted(s["calls"]))
+    open(os.path.join(work, "c08k_common.h"), "w").write(CHECKS_H.replace("@SYNDECLS@", decls).replace("@CHECKS@", ""))
     return CHECKS_H.replace("@SYNDECLS@", decls).replace("@CHECKS@", "\n".join(fn))
 
 
@@ -660,7 +665,7 @@ def prepare(work, tier):
     ctxt = open(c).read().replace("__assert_fail", "verif_assert_fail")
     open(c, "w").write(ctxt)
     checks = build_checks(s, tier)
-    open(os.path.join(work, "c08k_checks.h"), "w").write(checks_header(checks, s))
+    open(os.path.join(work, "c08k_checks.h"), "w").write(checks_header(checks, s, work))
     drv = os.path.join(work, "drv08.c")
     open(drv, "w").write(DRIVER.replace("@TABLE@", ", ".join('{"%s", %d, chk_%s}' % (ck.cid, ck.nin, ck.cid) for ck in checks)))
     nlines = K.differential(work, drv, c, cpp, extra_c=["-D__dso_handle=verif_dso_handle"], timeout=600)
@@ -676,7 +681,7 @@ def _cls(v):
 
 def _cls_expr(idx, cls):
     x = "IN[%d]" % idx
-    return {"MIN_RAM_SIGNED": "%s==%s" % (x, CMIN), "MAX_RAM_SIGNED": "%s==%s" % (x, CMAX), "other": "(%s!=%s&&%s!=%s)" % (x, CMIN, x, CMAX)}[cls]
+    return {"MIN_RAM_SIGNED": "%s==%s" % (x, CMIN), "MAX_RAM_SIGNED": "%s==%s" % (x, CMAX)}[cls]
 
 
 def make_obligation(work, ck, tier, excluded):
@@ -792,8 +797,20 @@ def triage(work, obls, res, cpp, state):
         if not (rc == 3 and "MISMATCH" in out):
             res.inconc("C08/K counterexample for %s (%s) with inputs %s did not reproduce natively (rc=%d %s)" % (o.name, failed, " ".join(args), rc, out.strip()[-200:]))
             continue
-        cls = dict((i, _cls(vals[i])) for i, _ in ck.bound)
-        sent = [(nm, cls[i]) for i, nm in ck.bound if cls[i] != "other"]
+        # which sentinel values are essential?  replace each one by an ordinary value on the native build; a column whose
+        # replacement still fails is not part of the class (the class is what gets reported and then assumed away)
+        cls = dict((i, _cls(vals[i])) for i, _ in ck.bound if _cls(vals[i]) != "other")
+        probe = list(vals)
+        for i in sorted(cls):
+            if len(cls) == 1:
+                break
+            trial = list(probe)
+            trial[i] = [v for v in (5, 7, 11, 13) if v not in probe][0]
+            rc2, out2, _ = sh([native, "one", ck.cid] + [str(v) for v in trial] + [str(ne), str(ct)], timeout=30)
+            if rc2 == 3 and "MISMATCH" in out2:
+                probe = trial
+                del cls[i]
+        sent = [(nm, cls[i]) for i, nm in ck.bound if i in cls]
         if not ck.bound:
             cname = "any"
         elif not sent:
@@ -805,7 +822,7 @@ def triage(work, obls, res, cpp, state):
         prefix = {"interp-eqrel": "eqrel-lookup", "compiled-eqrel": "eqrel-lookup-compiled", "interp-btree": "btree-lookup"}[ck.group]
         key = "%s:%s:%s" % (prefix, ck.pattern if ck.group != "interp-btree" else ck.cid, cname)
         state["instances"].setdefault(key, []).append(o.name)
-        bvals = dict((nm, vals[i]) for i, nm in ck.bound)
+        bvals = dict((nm, probe[i]) for i, nm in ck.bound)
         if key not in state["seen"]:
             files = {"k08.cpp": open(cpp).read(), "drv08.c": open(os.path.join(work, "drv08.c")).read(),
                      "c08k_checks.h": open(os.path.join(work, "c08k_checks.h")).read(), "trace.txt": o.res.out[-20000:]}
